@@ -21,6 +21,8 @@ def main(argv=None):
     s = sub.add_parser("selftest")
     s.add_argument("props", nargs="*")
     s.add_argument("-j", type=int, default=16)
+    sd = sub.add_parser("seeds")
+    sd.add_argument("prop", nargs="?")
     args = ap.parse_args(argv)
     from . import core
     if args.cmd == "check":
@@ -55,6 +57,10 @@ def main(argv=None):
             return 1
         print("not reproduced on the current tree: rule=%s construct=%s" % (rp["rule"], rp["construct"]))
         return 0
+    if args.cmd == "seeds":
+        from . import seeds
+        res, fails = seeds.run(args.prop)
+        return 2 if fails else 0
     if args.cmd == "selftest":
         from . import selftest
         return selftest.main(args.props, args.j)
